@@ -306,14 +306,28 @@ def affines(draw, allow_singular=True):
                    1 - 2 * (x * x + y * y)]])
     scales = [draw(st.sampled_from([1.0, -1.0, 0.5, 2.0, -3.0, 0.001, 50.0]))
               for _ in range(3)]
-    kind = draw(st.sampled_from(["regular"] * 6 + (["singular"]
-                                                   if allow_singular else [])))
+    kind = draw(st.sampled_from(["regular"] * 6 + ["near_identity"] + (
+        ["singular"] if allow_singular else [])))
     if kind == "singular":
         scales[draw(st.integers(0, 2))] = draw(st.sampled_from([0.0, 1e-14]))
     shear = np.eye(3)
     shear[0, 1] = draw(st.sampled_from([0.0, 0.0, 0.3, -0.2]))
     A = R @ shear @ np.diag(scales)
     t = [draw(st.floats(-1000, 1000)) for _ in range(3)]
+    if kind == "near_identity":
+        # a transform that is almost, but not, the identity (a registration
+        # refinement, a unit correction of a few parts per million)
+        eps = draw(st.sampled_from([4e-6, 1e-6, 8e-6, 3e-7, 9.9e-6]))
+        A = np.eye(3) + eps * np.array(
+            [[draw(st.sampled_from([1.0, -1.0, 0.0, 0.5])) for _ in range(3)]
+             for _ in range(3)])
+        if draw(st.booleans()):
+            # a pure rescaling (off-diagonal terms exactly zero)
+            A = np.diag(np.diag(A))
+            if np.allclose(A, np.eye(3), rtol=0, atol=1e-9):
+                A[0, 0] = 1 + eps
+        t = [draw(st.sampled_from([0.0, 0.0, 1e-9, -5e-9]))
+             for _ in range(3)]
     rows = 3 if draw(st.booleans()) else 4
     M = np.zeros((rows, 4))
     M[:3, :3] = A
@@ -522,9 +536,14 @@ def check_convert(ctx, case):
         if gv.shape != ev.shape:
             ctx.fail("fragment has %d vertices, expected %d" % (len(gv),
                                                                len(ev)))
-        tol = 2e-6 * np.maximum(np.abs(ev), 1e-30) + 1e-6 * (
-            1e6 * (np.abs(M[:3, :3]).max() * np.abs(v).max()
-                   if M is not None else 0))
+        # float32 storage and a handful of roundings: a few float32 ulps of
+        # the largest term entering each coordinate
+        if M is not None:
+            bound = np.abs(v.astype(float)) @ np.abs(M[:3, :3]).T + np.abs(
+                M[:3, 3])
+        else:
+            bound = np.abs(v.astype(float))
+        tol = 4e-7 * 1e6 * np.maximum(bound, 1e-30)
         if np.any(np.abs(gv - ev) > tol):
             i = int(np.argmax(np.abs(gv - ev) - tol)) // 3
             ctx.fail("fragment vertex %d is %s, expected 1e6*(T.v)=%s" % (
